@@ -1096,11 +1096,12 @@ theorem clear_entity {w w' : World} {order : List Mask} {drops : List Val} (hi :
   simp only [Out.ok.injEq, Prod.mk.injEq] at e
   obtain ⟨rfl, rfl⟩ := e
   have harchs : w1.archs = w.archs.map Arch.cleared ∧ w1.len = 0 := by
-    unfold World.clear at h1
-    simp only [] at h1
-    split at h1
-    · simp at h1
-    · simp at h1; rw [← h1.1]; exact ⟨rfl, rfl⟩
+    obtain ⟨w0, h0, rfl⟩ := clear_eq h1
+    unfold World.clearRaw at h0
+    simp only [] at h0
+    split at h0
+    · simp at h0
+    · simp at h0; rw [← h0.1]; exact ⟨rfl, rfl⟩
   refine ⟨?_, harchs.2⟩
   intro id
   cases he : w1.entity id with
